@@ -98,6 +98,53 @@ class Ctx:
     def count_sites(self, n=1):
         self.sites += n
 
+    # ---- borrowing: a property's verdict also rests on mechanisms that another property "owns" (a batch is only atomic across
+    # crashes if no journal is deleted early; a snapshot is only frozen if nothing publishes past the generator; ...).  The
+    # borrowed obligations are re-evaluated on the same fact base and re-labelled with a rule id of the borrowing property, so
+    # that the check of THIS property reports the change, not only the owner's.
+    _borrowing = False
+
+    def borrow(self, owner, rules, as_rule, only_instances=None, skip_instances=()):
+        """import the obligations of `owner`'s rules (ids or prefixes) as obligations `as_rule` of this property"""
+        if Ctx._borrowing:
+            return 0
+        cache = getattr(self.F, "_borrow_cache", None)
+        if cache is None:
+            cache = {}
+            try:
+                self.F._borrow_cache = cache
+            except Exception:
+                pass
+        sub = cache.get((owner, self.cfg, self.tier))
+        if sub is None:
+            import importlib
+            mod = importlib.import_module("rules.props." + owner)
+            sub = Ctx(owner, self.F, self.cfg, self.tier)
+            sub._cg = self._cg
+            Ctx._borrowing = True
+            try:
+                mod.run(sub)
+            finally:
+                Ctx._borrowing = False
+            cache[(owner, self.cfg, self.tier)] = sub
+            if self._cg is None:
+                self._cg = sub._cg
+        n = 0
+        for o in sub.obs:
+            if not any(o.rule == r or (o.rule.startswith(r) and not o.rule[len(r):len(r) + 1].isdigit()) for r in rules):
+                continue
+            if only_instances and not any(k in o.instance for k in only_instances):
+                continue
+            if any(k in o.instance for k in skip_instances):
+                continue
+            n += 1
+            self.ob(as_rule, o.fn, o.instance, o.ok, o.detail + " [= %s of %s]" % (o.rule, owner), o.loc, o.nontrivial, o.kind)
+            self.fns_touched.add(o.fn)
+        self.ob(as_rule, "<floor>", "borrowed from %s %s" % (owner, "+".join(rules)), n > 0,
+                "%d obligation(s) of %s %s re-evaluated for this property" % (n, owner, ",".join(rules)) if n else "nothing matched %s %s: the borrowed rules were renamed — failing closed" % (owner, rules),
+                nontrivial=False, kind="floor")
+        return n
+
 
 # ------------------------------------------------------------------ known findings
 def load_known():
